@@ -35,6 +35,19 @@ pub enum TEvent {
 pub enum TKind {
     After,
     At,
+    /// `notify_after(..).into_future(ctx)` created first, then a gate request is awaited, then the
+    /// timer future is awaited: builder conversion and first poll are separated (direct host only)
+    AfterGated,
+    AtGated,
+}
+
+impl TKind {
+    fn is_after(self) -> bool {
+        matches!(self, TKind::After | TKind::AfterGated)
+    }
+    fn gated(self) -> bool {
+        matches!(self, TKind::AfterGated | TKind::AtGated)
+    }
 }
 
 #[derive(Clone, Copy, Debug, PartialEq, Eq, PartialOrd, Ord, Serialize, Deserialize)]
@@ -47,6 +60,10 @@ pub enum TAct {
     /// property ("the shell answered its request"), not generated
     /// app clears through the handle
     Clear(usize),
+    /// gated timers: the shell answers / drops the gate request the task awaits before it first
+    /// polls the timer future
+    OpenGate(usize),
+    DropGate(usize),
     DropHandle(usize),
     DropRequest(usize),
     AnswerClear(usize),
@@ -94,10 +111,13 @@ struct RefTimer {
     clear_req: ReqSt,
     woken: bool,
     outcome: Option<bool>, // Some(true)=completed, Some(false)=cleared
+    /// None = not gated
+    gate: Option<ReqSt>,
 }
 
 #[derive(Clone, Debug, PartialEq, Eq, PartialOrd, Ord)]
 enum RefOut {
+    Gate(usize),
     Request(usize),
     ClearRequest(usize),
     Completed(usize),
@@ -106,7 +126,15 @@ enum RefOut {
 
 impl RefTimer {
     fn new() -> Self {
-        RefTimer { phase: Phase::Idle, handle: HandleSt::Held, req: ReqSt::NotIssued, clear_req: ReqSt::NotIssued, woken: true, outcome: None }
+        RefTimer { phase: Phase::Idle, handle: HandleSt::Held, req: ReqSt::NotIssued, clear_req: ReqSt::NotIssued, woken: true, outcome: None, gate: None }
+    }
+
+    fn new_kind(k: TKind) -> Self {
+        let mut t = RefTimer::new();
+        if k.gated() {
+            t.gate = Some(ReqSt::NotIssued);
+        }
+        t
     }
 
     fn live(&self) -> bool {
@@ -120,6 +148,21 @@ impl RefTimer {
         self.woken = false;
         match self.phase {
             Phase::Idle => {
+                match self.gate {
+                    Some(ReqSt::NotIssued) => {
+                        // the task asks for its gate and waits; the timer future exists but has
+                        // not been polled
+                        self.gate = Some(ReqSt::Pending);
+                        out.push(RefOut::Gate(i));
+                        return;
+                    }
+                    Some(ReqSt::Pending) => return,
+                    Some(ReqSt::Dropped) => {
+                        self.phase = Phase::Done;
+                        return;
+                    }
+                    _ => {}
+                }
                 if self.handle == HandleSt::ClearSent {
                     // cleared before it was ever requested: nothing goes to the shell
                     self.phase = Phase::Done;
@@ -178,6 +221,22 @@ impl RefTimer {
                 ReqSt::Answered | ReqSt::Spent => Some(false),
                 _ => None,
             },
+            TAct::OpenGate(_) => match self.gate {
+                Some(ReqSt::Pending) => {
+                    self.gate = Some(ReqSt::Answered);
+                    self.woken = true;
+                    Some(true)
+                }
+                Some(ReqSt::Answered) => Some(false),
+                _ => None,
+            },
+            TAct::DropGate(_) => {
+                if self.gate == Some(ReqSt::Pending) {
+                    self.gate = Some(ReqSt::Dropped);
+                    self.woken = true;
+                }
+                None
+            }
             TAct::Clear(_) => {
                 if self.handle == HandleSt::Held {
                     self.handle = HandleSt::ClearSent;
@@ -234,6 +293,8 @@ struct RealTimers {
     ids: Vec<Option<TimerId>>,
     reqs: Vec<Option<Request<TimeRequest>>>,
     clear_reqs: Vec<Option<Request<TimeRequest>>>,
+    gates: Vec<Option<Request<TimeRequest>>>,
+    gate_seen: Vec<bool>,
     kinds: Vec<TKind>,
 }
 
@@ -250,6 +311,26 @@ fn build(kinds: &[TKind]) -> RealTimers {
                 let (b, h) = Time::<TEffect, TEvent>::notify_at(SystemTime::UNIX_EPOCH + Duration::from_secs(1000 + i as u64));
                 (b.then_send(move |o| outcome_event(i, o)), h)
             }
+            TKind::AfterGated => {
+                let (b, h) = Time::<TEffect, TEvent>::notify_after(Duration::from_millis(300 + i as u64));
+                let cmd = Command::new(move |ctx| async move {
+                    let fut = b.into_future(ctx.clone());
+                    let _gate = ctx.request_from_shell(TimeRequest::Now).await;
+                    let o = fut.await;
+                    ctx.send_event(outcome_event(i, o));
+                });
+                (cmd, h)
+            }
+            TKind::AtGated => {
+                let (b, h) = Time::<TEffect, TEvent>::notify_at(SystemTime::UNIX_EPOCH + Duration::from_secs(1000 + i as u64));
+                let cmd = Command::new(move |ctx| async move {
+                    let fut = b.into_future(ctx.clone());
+                    let _gate = ctx.request_from_shell(TimeRequest::Now).await;
+                    let o = fut.await;
+                    ctx.send_event(outcome_event(i, o));
+                });
+                (cmd, h)
+            }
         };
         cmds.push(cmd);
         handles.push(Some(h));
@@ -262,6 +343,8 @@ fn build(kinds: &[TKind]) -> RealTimers {
         ids: vec![None; n],
         reqs: (0..n).map(|_| None).collect(),
         clear_reqs: (0..n).map(|_| None).collect(),
+        gates: (0..n).map(|_| None).collect(),
+        gate_seen: vec![false; n],
         kinds: kinds.to_vec(),
     }
 }
@@ -293,7 +376,7 @@ impl RealTimers {
             match r.operation.clone() {
                 TimeRequest::NotifyAfter { id, duration } => {
                     let i = (std::time::Duration::from(duration).as_millis() as usize).wrapping_sub(300);
-                    if self.kinds.get(i) != Some(&TKind::After) {
+                    if !self.kinds.get(i).map_or(false, |k| k.is_after()) {
                         return Err(TFail { key: "request/payload-altered".into(), what: format!("unexpected NotifyAfter payload {:?}", r.operation) });
                     }
                     if self.ids[i].is_some() {
@@ -306,7 +389,7 @@ impl RealTimers {
                 }
                 TimeRequest::NotifyAt { id, instant } => {
                     let i = (SystemTime::from(instant).duration_since(SystemTime::UNIX_EPOCH).map_or(0, |d| d.as_secs()) as usize).wrapping_sub(1000);
-                    if self.kinds.get(i) != Some(&TKind::At) {
+                    if !self.kinds.get(i).map_or(false, |k| !k.is_after()) {
                         return Err(TFail { key: "request/payload-altered".into(), what: format!("unexpected NotifyAt payload {:?}", r.operation) });
                     }
                     if self.ids[i].is_some() {
@@ -327,7 +410,15 @@ impl RealTimers {
                     self.clear_reqs[i] = Some(r);
                     out.push(RefOut::ClearRequest(i));
                 }
-                TimeRequest::Now => return Err(TFail { key: "request/unexpected-now".into(), what: "unexpected Now request".into() }),
+                TimeRequest::Now => {
+                    // gate of the next gated timer (tasks are polled in index order)
+                    let Some(i) = (0..self.kinds.len()).find(|i| self.kinds[*i].gated() && !self.gate_seen[*i]) else {
+                        return Err(TFail { key: "request/unexpected-now".into(), what: "unexpected Now request".into() });
+                    };
+                    self.gate_seen[i] = true;
+                    self.gates[i] = Some(r);
+                    out.push(RefOut::Gate(i));
+                }
             }
         }
         for e in events {
@@ -345,11 +436,15 @@ impl RealTimers {
             TAct::Poll => None,
             TAct::Fire(i) => {
                 let id = self.ids[i]?;
-                let resp = match self.kinds[i] {
-                    TKind::After => TimeResponse::DurationElapsed { id },
-                    TKind::At => TimeResponse::InstantArrived { id },
-                };
+                let resp = if self.kinds[i].is_after() { TimeResponse::DurationElapsed { id } } else { TimeResponse::InstantArrived { id } };
                 self.reqs[i].as_mut().map(|r| r.resolve(resp).is_ok())
+            }
+            TAct::OpenGate(i) => self.gates[i]
+                .as_mut()
+                .map(|r| r.resolve(TimeResponse::Now { instant: crux_time::Instant::new(1, 0) }).is_ok()),
+            TAct::DropGate(i) => {
+                self.gates[i] = None;
+                None
             }
             TAct::Clear(i) => {
                 if let Some(h) = self.handles[i].take() {
@@ -396,7 +491,7 @@ pub struct TFound {
 /// Replays `hist` on fresh real timers with the reference alongside; Err on the first divergence.
 fn replay(kinds: &[TKind], hist: &[TStep], trace: bool) -> Result<(Vec<RefTimer>, Vec<usize>), TFail> {
     let mut real = build(kinds);
-    let mut refs: Vec<RefTimer> = kinds.iter().map(|_| RefTimer::new()).collect();
+    let mut refs: Vec<RefTimer> = kinds.iter().map(|k| RefTimer::new_kind(*k)).collect();
     let mut ids = vec![];
     let mut outcomes_seen: Vec<u8> = vec![0; kinds.len()];
     for (n, st) in hist.iter().enumerate() {
@@ -407,7 +502,8 @@ fn replay(kinds: &[TKind], hist: &[TStep], trace: bool) -> Result<(Vec<RefTimer>
         };
         let i = match st.act {
             TAct::Poll => None,
-            TAct::Fire(i) | TAct::Clear(i) | TAct::DropHandle(i) | TAct::DropRequest(i) | TAct::AnswerClear(i) | TAct::DropClearRequest(i) => Some(i),
+            TAct::Fire(i) | TAct::Clear(i) | TAct::DropHandle(i) | TAct::DropRequest(i) | TAct::AnswerClear(i) | TAct::DropClearRequest(i)
+            | TAct::OpenGate(i) | TAct::DropGate(i) => Some(i),
         };
         let pred_res = i.and_then(|i| refs[i].apply(st.act));
         if trace {
@@ -485,7 +581,7 @@ fn enabled(refs: &[RefTimer], depth: usize, max_depth: usize, silent_used: usize
             v.push(TStep { act, observe: false });
         }
     };
-    let any_unpolled = refs.iter().any(|t| t.phase == Phase::Idle);
+    let any_unpolled = refs.iter().any(|t| t.phase == Phase::Idle && t.gate.map_or(true, |g| g == ReqSt::NotIssued));
     if any_unpolled {
         v.push(TStep { act: TAct::Poll, observe: true });
     }
@@ -496,6 +592,14 @@ fn enabled(refs: &[RefTimer], depth: usize, max_depth: usize, silent_used: usize
                 push(TAct::DropRequest(i), t.phase != Phase::Requested, &mut v);
             }
             ReqSt::Answered | ReqSt::Spent => push(TAct::Fire(i), true, &mut v), // duplicate answer
+            _ => {}
+        }
+        match t.gate {
+            Some(ReqSt::Pending) => {
+                push(TAct::OpenGate(i), false, &mut v);
+                push(TAct::DropGate(i), false, &mut v);
+            }
+            Some(ReqSt::Answered) => push(TAct::OpenGate(i), true, &mut v),
             _ => {}
         }
         match t.handle {
@@ -524,6 +628,7 @@ pub fn explore(kinds: &[TKind], max_depth: usize, max_silent: usize, max_late: u
             TAct::DropRequest(i) => refs[i].phase != Phase::Requested,
             TAct::Clear(i) | TAct::DropHandle(i) => refs[i].phase == Phase::Done,
             TAct::AnswerClear(i) => refs[i].clear_req != ReqSt::Pending,
+            TAct::OpenGate(i) => refs[i].gate != Some(ReqSt::Pending),
             _ => false,
         }
     }
@@ -581,7 +686,7 @@ pub fn explore(kinds: &[TKind], max_depth: usize, max_silent: usize, max_late: u
         }
     }
     stats.states += 1;
-    let refs: Vec<RefTimer> = kinds.iter().map(|_| RefTimer::new()).collect();
+    let refs: Vec<RefTimer> = kinds.iter().map(|k| RefTimer::new_kind(*k)).collect();
     dfs(kinds, &mut vec![], &refs, 0, 0, max_depth, max_silent, max_late, stats, found, sample);
 }
 
@@ -738,15 +843,12 @@ pub mod legacy {
             let mut expect_request: Option<usize> = None;
             let mut expect_outcome: Option<(usize, bool)> = None;
             let r = mc_kit::catch(|| match act {
-                LAct::Start(TKind::After) => Some(core.process_event(LEvent::StartAfter)),
-                LAct::Start(TKind::At) => Some(core.process_event(LEvent::StartAt)),
+                LAct::Start(k) if k.is_after() => Some(core.process_event(LEvent::StartAfter)),
+                LAct::Start(_) => Some(core.process_event(LEvent::StartAt)),
                 LAct::Clear(i) => Some(core.process_event(LEvent::Clear(*i))),
                 LAct::Fire(i) => {
                     let id = ids[*i].unwrap();
-                    let resp = match kinds[*i] {
-                        TKind::After => TimeResponse::DurationElapsed { id },
-                        TKind::At => TimeResponse::InstantArrived { id },
-                    };
+                    let resp = if kinds[*i].is_after() { TimeResponse::DurationElapsed { id } } else { TimeResponse::InstantArrived { id } };
                     let req = reqs[*i].as_mut().unwrap();
                     match req.resolve(resp) {
                         Ok(()) => Some(core.process_event(LEvent::Clear(usize::MAX))), // no-op event runs the core
@@ -980,11 +1082,11 @@ pub mod viacore {
                 CEvent::Start(k) => {
                     let i = model.handles.len();
                     let (cmd, h) = match k {
-                        TKind::After => {
+                        TKind::After | TKind::AfterGated => {
                             let (b, h) = Time::<Effect, CEvent>::notify_after(Duration::from_millis(300 + i as u64));
                             (b.then_send(move |o| CEvent::Outcome(i, matches!(o, TimerOutcome::Completed(_)))), h)
                         }
-                        TKind::At => {
+                        TKind::At | TKind::AtGated => {
                             let (b, h) = Time::<Effect, CEvent>::notify_at(SystemTime::UNIX_EPOCH + Duration::from_secs(1000 + i as u64));
                             (b.then_send(move |o| CEvent::Outcome(i, matches!(o, TimerOutcome::Completed(_)))), h)
                         }
@@ -1070,10 +1172,7 @@ pub mod viacore {
                     }
                     CAct::Fire(i) => {
                         let id = ids[*i].unwrap();
-                        let resp = match kinds[*i] {
-                            TKind::After => TimeResponse::DurationElapsed { id },
-                            TKind::At => TimeResponse::InstantArrived { id },
-                        };
+                        let resp = if kinds[*i].is_after() { TimeResponse::DurationElapsed { id } } else { TimeResponse::InstantArrived { id } };
                         match reqs[*i].as_mut() {
                             Some(r) => match r.resolve(resp) {
                                 Ok(()) => (Some(true), core.process_event(CEvent::Noop)),
